@@ -14,7 +14,8 @@ NOT_APPLICABLE = {}
 CHECKS = {
  "C01": dict(engine="E1 schema-space", design_ref="6/C01",
     technique="bounded exhaustive enumeration of schemas x configurations x entry points x values, executed on the library",
-    text="Every schema of the bounded type grammar (all leaves at depth 1, representative alphabet to depth 3/4), in every class "
+    text="Every schema of the bounded type grammar (all leaves at depth 1, representative alphabet to depth 3/4, plus the nullability cross: every "
+         "structured constructor around an Optional leaf in every None-context, typing.Self / generic / inherited / forward-referencing classes), in every class "
          "configuration that keeps information, through codec, mixin and nested entry points and module/local class naming, with every "
          "value of the finite per-type domains: decode(encode(v)) is compared with v including concrete classes. Exhaustive within the "
          "stated bounds; nothing is sampled.",
@@ -22,7 +23,7 @@ CHECKS = {
  "C02": dict(engine="E1 schema-space", design_ref="6/C02",
     technique="bounded exhaustive enumeration of schemas x dialects x entry points x values against an independent reference interpreter",
     text="For every schema of the bounded grammar, every value of the per-type domains, the default dialect and the three format dialects "
-         "(observed through the documented identity encoder and as default_dialect), through codec, mixin and nested entry points: the "
+         "(observed through the documented identity encoder on a holder, on the class itself built on the format mixin, and as default_dialect), through codec, mixin and nested entry points: the "
          "output is compared node by node (exact types, exact key/element/field order) with ref.encode, checked to contain only basic "
          "types plus the dialect's native types, and passed to json.dumps. Exhaustive within the stated bounds.",
     note="trusted base: vmc/ref.py (written from README.md, no library code), vmc/space.py value domains; one open finding (TOML null fields) is attributed by a narrow scope predicate"),
@@ -42,7 +43,8 @@ CHECKS = {
  "C07": dict(engine="E1 schema-space", design_ref="6/C07",
     technique="exhaustive enumeration of dataclass field layouts x inheritance splits x presence vectors against a default/presence model",
     text="All field layouts up to length 4 (5 in thorough) over 13 field kinds that dataclasses accepts (required, default, factory, kw_only, "
-         "KW_ONLY sentinel, init=False, InitVar, ClassVar, nullable, converted), every base/child split and default override, all presence "
+         "KW_ONLY sentinel, init=False, InitVar, ClassVar, nullable, converted), every base/child split, two- and three-level hierarchies with "
+         "default-changing and kind-changing overrides (required->defaulted, Optional=None -> non-None), all presence "
          "vectors (absent/present/null), through mixin and codec: field == converted input iff present else default; non-constructor "
          "members never read; factory objects never shared between results; first missing required field named.",
     note="trusted base: the presence/default model in vmc/checks/c07.py (30 lines); layouts rejected by dataclasses itself are counted, not judged"),
@@ -55,7 +57,7 @@ CHECKS = {
  "C09": dict(engine="E1 schema-space", design_ref="6/C09",
     technique="exhaustive enumeration of alias assignments x flags x all subsets of candidate input keys against KEYMODEL",
     text="All 64 alias-source assignments for a required and a defaulted field x (allow_deserialization_not_by_alias, forbid_extra_keys) x "
-         "class-level discriminator x mixin/codec/via-base entry x all 2^11 subsets of the candidate keys (names, each source's alias, stranger, "
+         "class-level discriminator x converted (int) and passed-through (Any) field types x mixin/codec/via-base entry x all 2^11 subsets of the candidate keys (names, each source's alias, stranger, "
          "'None', discriminator key): result / MissingField / ExtraKeysError(extra_keys) must equal KEYMODEL exactly.",
     note="trusted base: KEYMODEL (15 lines) in vmc/checks/c09.py"),
  "C10": dict(engine="E1 schema-space", design_ref="6/C10",
@@ -68,7 +70,7 @@ CHECKS = {
  "C13": dict(engine="E2 histories", design_ref="6/C13, 5.2",
     technique="explicit-state BFS over dialect-call histories on real classes (differential twin oracle) + exhaustive format x dialect-option-subset enumeration",
     text="(a) BFS to depth 3 (4 in thorough) over {to_dict, from_dict} x {no dialect, D1, D2, D3} x {class, parent, subclass} on fresh nested and "
-         "inheritance families in eager / lazy / postponed mode, canonical state = per-class method/stub/dialect-cache contents: every call equals a "
+         "inheritance families in eager / lazy / postponed mode and on a family whose subclass is DEFINED by an operation of the history, canonical state = per-class method/stub/dialect-cache contents: every call equals a "
          "fresh twin whose Config.dialect is that dialect, so no call can depend on earlier dialects or alter the default behaviour. (b) every format "
          "codec x every subset (size <= 2, thorough <= 3) of the six Dialect options: the document parsed by the format's own library equals the basic "
          "codec's output under the same dialect, decoder dually.",
@@ -83,9 +85,9 @@ CHECKS = {
     note="atomic step = one line of generated code or the stretch between traced library calls; interleavings inside a step and other interpreters are not covered"),
  "C12": dict(engine="E2 histories", design_ref="6/C12, 5.2",
     technique="explicit-state BFS over define-subclass / decode histories on real class hierarchies with a history-computed oracle",
-    text="For three wirings (Config.discriminator, Annotated field of a mixin holder, BasicDecoder) x 14 discriminator settings (field or not, "
+    text="For four wirings (Config.discriminator, Annotated field of a mixin holder, a holder with two discriminated fields using two tagger functions, BasicDecoder) x 14 discriminator settings (field or not, "
          "include_subtypes/supertypes, variant_tagger_fn none/single/list): BFS over all histories of {define Sub1/Sub2/Sub3 (grandchild), decode each "
-         "tag, missing tag, unknown tag, decode via subclass, four field-less input shapes} until the canonical state space is exhausted (frontier empties "
+         "tag (including the falsy tags 0 and ''), missing tag, unknown tag, decode via subclass, four field-less input shapes} until the canonical state space is exhausted (frontier empties "
          "below the depth bound 6/8): each decode must return the class carrying the tag among the classes defined so far, else the documented error.",
     note="oracle is computed from the history only (definition order, eligibility, tags); canonical state = defined classes + per-class methods + variant registries"),
  "C15": dict(engine="E1 schema-space + E2 histories", design_ref="6/C15",
@@ -98,20 +100,21 @@ CHECKS = {
  "C19": dict(engine="E1 schema-space", design_ref="6/C19",
     technique="exhaustive enumeration of hooked dataclass trees x shapes x context opt-in masks x entry points with marking hooks",
     text="Every tree of depth 2 and 3 over nine child shapes (field, List, Dict, Optional, Tuple, Union in both member orders, list of unions, "
-         "Union with a scalar first) x mixin / plain / orjson / msgpack class kinds x ADD_SERIALIZATION_CONTEXT masks x 6-8 entry points: serialize "
+         "Union with a scalar first) x mixin / plain / orjson / msgpack class kinds x ADD_SERIALIZATION_CONTEXT masks x other keyword flags on some classes only x 6-8 entry points: serialize "
          "hook trace == pre/post-order traversal; each hook's return value used exactly once (marks in output/result); post-deserialize multiset == "
          "instances of the result; context reaches exactly the opted-in nodes below opted-in ancestors.",
     note="hooks mark tags so that 'return value is what is used' is observable; deserialize pre-hooks of speculative union attempts are allowed (only post counts are exact)"),
  "C16": dict(engine="E1 schema-space", design_ref="6/C16",
     technique="exhaustive enumeration of all strings up to a length bound over an adversarial alphabet x every splice position, with neighbour-rejection and a sentinel side effect",
     text="All strings of length 0..3 (0..4 in thorough) over 14 adversarial characters (quotes, backslash, newline, braces, %, #, NUL-like payloads, "
-         "non-ASCII) plus 30 injection payloads x 13 positions (three alias sources with and without forbid_extra_keys / allow_deserialization_not_by_alias, "
+         "non-ASCII) plus 30 injection payloads x 16 positions (three alias sources with and without forbid_extra_keys / allow_deserialization_not_by_alias, and on "
+         "the statement-per-field to_dict path: nullable converted field, omit_default, by_alias keyword flag; "
          "TypedDict required/NotRequired key, discriminator field, Literal str/bytes, enum value, namedtuple-as-dict key): build succeeds, the exact string "
          "is written and read, one-character and escape-lookalike neighbours are rejected, error objects carry the exact string, the sentinel never fires.",
     note="namedtuple field names and empty/dunder discriminator names are excluded by Python's or the documented API's own rules (counted as not applicable)"),
  "C18": dict(engine="E1 schema-space", design_ref="6/C18",
     technique="exhaustive enumeration of container schemas x all 32 no_copy_collections subsets x routes x values with an identity-sharing model",
-    text="Container schemas up to depth 3 over {int, date, Any} x every subset of {list, dict, set, deque, OrderedDict} as no_copy_collections through codec "
+    text="Container schemas up to depth 3 over {int, date, Any, an annotated SerializableType that returns its own list} x every subset of {list, dict, set, deque, OrderedDict} as no_copy_collections through codec "
          "default_dialect, Config.dialect and call dialect, plus the orjson/msgpack/TOML dialects x values: the set of mutable containers shared by identity "
          "between value and output equals the model's prediction exactly; serialization never mutates the value; decoding never shares a typed container "
          "with, nor mutates, its input.",
@@ -119,7 +122,7 @@ CHECKS = {
  "C17": dict(engine="E1 schema-space", design_ref="6/C17",
     technique="exhaustive enumeration of schemas and class-definition-site scenarios with settrace capture of every generated compile unit and bytecode enumeration of all global loads",
     text="Every schema of depth <= 1 (2 in thorough) in module and <locals> class naming, plus 13 class kinds created by functional APIs x 12 shapes x "
-         "{function-local, not bound to its module} and 5 twin-qualified-name kinds x 4 shapes: (1) every compile unit the library execs is captured through "
+         "{function-local, not bound to its module}, 5 twin-qualified-name kinds x 4 shapes and 9 annotations x 5 ways of overriding a field's conversion: (1) every compile unit the library execs is captured through "
          "sys.settrace and every LOAD_GLOBAL/LOAD_NAME (with module attribute chains) in every code object is resolved against the function's globals and "
          "builtins - this covers paths no input exercises; (2) success and error paths are provoked and no NameError/SyntaxError/library-made AttributeError "
          "may appear in any exception chain; decoded objects must be instances of the very annotated class; DefaultDict factories must be classes or None.",
@@ -142,10 +145,10 @@ CHECKS = {
  "C06": dict(engine="E1 schema-space", design_ref="6/C06",
     technique="exhaustive enumeration of schemas x targets x (dialect, all_refs) x values, each instance validated by jsonschema.Draft202012Validator",
     text="Every schema-supported schema of depth <= 1 (2 in thorough, plus a slice of depth 2 in quick), bare, as a dataclass field with an Optional twin "
-         "and under two alias sources x {DRAFT_2020_12, OPEN_API_3_1} x all_refs x every value: the JSON round trip of the documented serialization "
+         "and under four alias settings (metadata, Config.aliases, both, Annotated Alias), plus init=False fields and fixed unpacked tuples, x {DRAFT_2020_12, OPEN_API_3_1} x all_refs x every value: the JSON round trip of the documented serialization "
          "(by alias where aliases exist) must validate against build_json_schema's output under a standard Draft 2020-12 validator; required == fields "
          "without default; same-named classes and generic specialisations must not share a definition.",
-    note="standard validator = jsonschema 4.26 from the offline wheelhouse (installed by setup.sh into /verif/.deps); four open findings (Flag enum, non-string propertyNames - both pinned by tests -, self reference, definition-name collision) attributed per validation error"),
+    note="standard validator = jsonschema 4.26 from the offline wheelhouse (installed by setup.sh into /verif/.deps); five open findings (Flag enum, non-string propertyNames, init=False fields - all three pinned by tests -, self reference, definition-name collision) attributed per validation error"),
  "C20": dict(engine="E1 schema-space + E2 histories", design_ref="6/C20",
     technique="exhaustive enumeration of owner configurations x defaults x build parameters with metaschema / $ref-closure / model-round-trip oracles + BFS over JSONSchemaBuilder.build orders",
     text="(a) every schema-supported schema as a defaulted field of an owner dataclass x domain values as defaults x 12 owner configurations (key-dropping "
